@@ -52,22 +52,27 @@ func vDumpCfgs(c collector.EventConfigs) string {
 		f(c.CustomEventConfig), f(c.SpanEventConfig), f(c.LogEventConfig))
 }
 
+// vBuildReply assembles a connect reply from key=value tokens and parses it with the real parseConnectReply.
+func vBuildReply(t []string) (*ConnectReply, error) {
+	limits := vJoinMembers(vJSONMember(t, "ee", "error_event_data"), vJSONMember(t, "ae", "analytic_event_data"),
+		vJSONMember(t, "ce", "custom_event_data"), vJSONMember(t, "se", "span_event_data"), vJSONMember(t, "le", "log_event_data"))
+	ehc := vJoinMembers(vJSONMember(t, "rp", "report_period_ms"), `"harvest_limits":{`+limits+`}`)
+	sehc := vJoinMembers(vJSONMember(t, "srp", "report_period_ms"), vJSONMember(t, "sl", "harvest_limit"))
+	body := `{"agent_run_id":"r1"`
+	if v, _ := vKV(t, "ehc"); v != "0" {
+		body += `,"event_harvest_config":{` + ehc + `}`
+	}
+	if v, _ := vKV(t, "sehc"); v != "0" {
+		body += `,"span_event_harvest_config":{` + sehc + `}`
+	}
+	body += `}`
+	return parseConnectReply([]byte(body))
+}
+
 func vLimOp(t []string) string {
 	switch vStr(t, 1) {
 	case "reply":
-		limits := vJoinMembers(vJSONMember(t, "ee", "error_event_data"), vJSONMember(t, "ae", "analytic_event_data"),
-			vJSONMember(t, "ce", "custom_event_data"), vJSONMember(t, "se", "span_event_data"), vJSONMember(t, "le", "log_event_data"))
-		ehc := vJoinMembers(vJSONMember(t, "rp", "report_period_ms"), `"harvest_limits":{`+limits+`}`)
-		sehc := vJoinMembers(vJSONMember(t, "srp", "report_period_ms"), vJSONMember(t, "sl", "harvest_limit"))
-		body := `{"agent_run_id":"r1"`
-		if v, _ := vKV(t, "ehc"); v != "0" {
-			body += `,"event_harvest_config":{` + ehc + `}`
-		}
-		if v, _ := vKV(t, "sehc"); v != "0" {
-			body += `,"span_event_harvest_config":{` + sehc + `}`
-		}
-		body += `}`
-		reply, err := parseConnectReply([]byte(body))
+		reply, err := vBuildReply(t)
 		if err != nil {
 			return "error"
 		}
